@@ -3,6 +3,7 @@ import RV.Proofs.Sync
   C09: `reb_simulation_integrate` assigns `dt` only in a synchronised state.
 -/
 set_option linter.unusedVariables false
+set_option linter.unusedSimpArgs false
 namespace RV.Sync
 variable {F : Type}
 
